@@ -22,6 +22,9 @@ RENAMINGS = [
     ('reverse', lambda x: 30 - x),                       # reverses the internal slot order
     ('textual', lambda x: ['n', x] if x < 16 else x),    # numeric -> textual names ($x<k>): residue 2, sorts differently
     ('scatter', lambda x: (x * 7) % 23 + 40),
+    # names of the form $f<k>, the printed form of generated slots, ahead of the thread's fresh counter: the library must step its
+    # counter over them (Slot::named) so that no generated slot ever coincides with one of them
+    ('fnames', lambda x: ['f', 3 * x + 2]),
 ]
 
 
@@ -36,7 +39,7 @@ class C11(EgSpec):
     trusted_base = EG_TB + ['EGraph/Model.v as the common oracle for the original and the renamed run']
     assumptions = ['equivariance of the e-graph algorithm is not proved (its tie-breaks use the slot order on purpose); proved is equivariance of the specified congruence Deriv',
                    'analysis data and extraction cost under renaming are exercised by the C14 / C06 checks, not here']
-    rule = ('each random/motif history is run together with one renamed copy (all slot names of all inputs replaced through an injective map: shift, order-reversing, numeric->textual names, scatter); '
+    rule = ('each random/motif history is run together with one renamed copy (all slot names of all inputs replaced through an injective map: shift, order-reversing, numeric->textual names, scatter, names of the form $f<k>); '
             'compared: every equality query, live classes, per-term slot set (renamed) and symmetry count. non-trivial = history with >= 1 union and >= 2 distinct slot names')
     streams = [
         {'name': 'default', 'component': 'eg', 'config': 'default', 'quick': 300, 'thorough': 8000},
@@ -59,6 +62,8 @@ class C11(EgSpec):
 
     def model_input(self, stream, case, impl_obs):
         pc = core.sx_parse(case)
+        if isinstance(pc[4], str) and pc[4].startswith('ren4x'):
+            return None     # the model's slot table does not model Slot::named's counter bump for $f<k> input names; judged on the implementation only
         return core.sx_show(['egm'] + pc[1:])
 
     def shrinkable(self):
@@ -86,7 +91,7 @@ class C11(EgSpec):
                         h1, h2 = field(opi, 'handles')[1:], field(pi, 'handles')[1:]
                         for a, b in zip(h1, h2):
                             if sorted(core.sx_show(f(x)) if not isinstance(x, list) else core.sx_show(x) for x in a[0]) != sorted(core.sx_show(x) for x in b[0]) or a[1] != b[1] or a[2] != b[2]:
-                                out.append(('violation', 'slots-or-symmetries', 'under renaming %s a handle has slots %s / %s symmetries, the original %s / %s' % (name, core.sx_show(b[0]), b[1], core.sx_show(a[0]), a[1]), {'original': ocase}))
+                                out.append(('violation', 'slots-or-symmetries', 'under renaming %s a handle has slots %s / %s symmetries / %s e-nodes in its class, the original %s / %s / %s' % (name, core.sx_show(b[0]), b[1], b[2], core.sx_show(a[0]), a[1], a[2]), {'original': ocase}))
                                 break
                         if not out and field(opi, 'prog') != field(pi, 'prog'):
                             out.append(('violation', 'progress', 'renaming (%s) changes the class / slot / symmetry counts' % name, {'original': ocase}))
